@@ -15,7 +15,7 @@ func init() {
 			"(every-kind-gets-an-entry) for each file-mode constant a tree entry can carry (Dir, Submodule, Symlink, Executable, Regular) and for each writer (WriteTarArchive, WriteZipArchive), under the assumption " +
 			"entry.Mode == that constant no path leads from the tree walker's Next() back to it (the next entry) or to the successful end without passing the writer's header call (tar.Writer.WriteHeader / zip.Writer.CreateHeader); " +
 			"the only edge left out is the one taken because the entry is not among the requested paths. git archive writes an entry for directories and submodules in both formats. " +
-			"(prefix-entry) both writers write a header on the branch taken for a prefix that ends in '/'. (format-dispatch) every name SupportedFormats lists is a case of WriteArchive's switch. (filter-evaluated-per-entry) the path filter is evaluated on each entry's own path: a helper around MatchesPathFilter answers 'not requested' only after the matcher ran for that entry (a wildcard can stand for a directory component, so a rejected directory decides nothing about its contents). (go-mode-bits) no Unix file-type bits are converted to fs.FileMode. " +
+			"(prefix-entry) both writers write a header on the branch taken for a prefix that ends in '/'. (format-dispatch) every name SupportedFormats lists is a case of WriteArchive's switch. (filter-evaluated-per-entry) the path filter is evaluated on each entry's own path: a helper around MatchesPathFilter answers 'not requested' only after the matcher ran for that entry (a wildcard can stand for a directory component, so a rejected directory decides nothing about its contents). (go-mode-bits) no Unix file-type bits are converted to fs.FileMode. (walk-error-not-end-of-walk) no error branch in plumbing/object or the archive package replaces the error by io.EOF, at which the writers stop and report success. (every-path-listed) the writers give the tree walker no seen set, so a tree object that occurs at several paths is listed at each. " +
 			"Found and fixed: the zip writer skipped directories, submodules and the prefix directory. Not decided: header fields (modes, times), contents, ordering, path filters.",
 		Assumptions: []string{"archive/tar and archive/zip write what their headers say"},
 		Run:         runC50,
